@@ -2,7 +2,7 @@
    Statements only; proofs in Proofs/HierMap.v (the maps of a hierarchy), Proofs/HierCsr.v (CSR trees),
    Proofs/HierWb.v (the Wishbone machine), Proofs/HierWb2.v (maps of a Wishbone hierarchy), HierWb3.v (from the
    root map's windows to the root decoder's selection), HierWb4.v (reach_iff_decode through SRAMs and bridges),
-   HierCycle1-5.v (rung 3: held transfers on the cycle-exact Wishbone machine).
+   HierCycle1-6.v (rung 3: held transfers on the cycle-exact Wishbone machine).
 
    Reading guide (Model/Hierarchy.v).  A hierarchy is syntax: `csrnode` = csr.Multiplexer over
    registers (with the add_resource()/align_to() calls made on its map) | csr.Decoder over csrnodes
@@ -21,7 +21,7 @@ From Soc Require Import Lib.Res Lib.Bits Model.MemoryMap Model.Hierarchy Model.M
   Proofs.LookupWf Proofs.HierMap Proofs.HierCsr Proofs.HierInert Proofs.HierWf Proofs.HierWb
   Proofs.HierWb2 Proofs.HierWb3 Proofs.HierWb4
   Proofs.CsrTreeFlat Proofs.CsrTreeRegs
-  Proofs.HierCycle1 Proofs.HierCycle2 Proofs.HierCycle3 Proofs.HierCycle4 Proofs.HierCycle5.
+  Proofs.HierCycle1 Proofs.HierCycle2 Proofs.HierCycle3 Proofs.HierCycle4 Proofs.HierCycle5 Proofs.HierCycle6.
 From Soc Require Model.CsrDecoder Model.Mux Model.WbDecoder Proofs.WbDecoder
   Model.Sram Proofs.Sram Model.WbCsrBridge Proofs.WbCsrBridge.
 Import ListNotations.
@@ -421,18 +421,17 @@ Qed.
    the bridge machine of C10 in front of the CSR tree machine of C06, fed with the relayed request), T1
    (C01_wb_sram_transfer), T2 at CSR-bus level (C01_wb_bridge_transfer) and at register level for every register
    of the tree in terms of the tree's root addresses (C01_wb_bridge_transfer_strobes; a bridge over a single
-   multiplexer is the tree of depth 0), T3's link from the ROOT map to the premises of T1/T2
+   multiplexer is the tree of depth 0), the atomic read through bridge and tree (C01_wb_bridge_read_atomic), T3's link from the ROOT map to the premises of T1/T2
    (C01_wb_decode_selects, _sram, _bridge).
 
    Still not proved:
-     - T2's DATA clauses at register level: "the w_data a register receives with its w_stb is the concatenation of
-       the dat_w lanes of its chunks" and "the dat_r lanes of a register lying inside the addressed word are the
-       chunks of ONE snapshot of it".  What is proved: the CSR bus carries lane i of dat_w at t0+i
-       (C01_wb_bridge_transfer clause 3) and lane i of the root's dat_r at t0+R+1 is the tree's r_data of cycle
-       t0+i+1 (last clause of its per-cycle part); C06_tree_write_atomic / C06_tree_read_atomic apply to that
-       very trace `br_ctr` (they speak about csr_run ch (cinit ch) ctr, which C01_wb_bridge_transfer identifies
-       with the ports below the bridge) but the instantiation (their "no other strobe in between" premises
-       follow from clause 3 and the disjointness of reported ranges) is not carried out here.
+     - T2's WRITE-DATA clause at register level: "the w_data a register receives with its w_stb is the
+       concatenation of the dat_w lanes of its chunks".  What is proved: WHEN the register gets w_stb
+       (C01_wb_bridge_transfer_strobes) and that the CSR bus carries lane i of dat_w at t0+i
+       (C01_wb_bridge_transfer clause 2); C06_tree_write_atomic applies to that very trace `br_ctr` (its "no
+       other write in between" premises follow from clause 2 and the disjointness of reported ranges, as in the
+       proof of C01_wb_bridge_read_atomic) but the instantiation is not carried out here.  The READ-DATA clause
+       is proved: C01_wb_bridge_read_atomic.
      - T3 for registers behind a bridge is stated with the register's range in the map of the CSR TREE below the
        bridge (lc); C01_wb_decode_selects_bridge gives the translation of addresses (CSR address = ga - window
        start, and the tree reaches (i_res i, ga - i_start i) there), not the translation of whole `info` records
@@ -644,6 +643,43 @@ Theorem C01_wb_bridge_transfer_strobes : forall h k bc ch s c mc lc, wbhw_wf h -
 Proof. exact bridge_transfer_strobes. Qed.
 Print Assumptions C01_wb_bridge_transfer_strobes.
 
+(* T2, read data (C04's snapshot semantics through bridge and tree).  Same premises, a READ; the addressed word
+   lies inside the CSR address space (C01_wb_decode_selects_bridge derives it from the map); i = a readable
+   register reported by the tree's map lying entirely inside the addressed word [A, A + R), all of whose granules
+   are selected (the other select bits are arbitrary); gf = index of its first granule within the word.  Then in
+   the acknowledge cycle t0+R+1, for every granule gn of the register, lane gn of the root's dat_r is chunk
+   gn - gf of the ONE value the register presented in cycle t0+gf (the cycle of its r_stb), whatever it presents
+   in any other cycle (`Mux.word dw width j v` = bits [j*dw, min(width, (j+1)*dw)) of v; the outer trunc is to the
+   bridge's granule = the CSR data width, C01_wb_constructed_bridge, and does nothing to a chunk). *)
+Theorem C01_wb_bridge_read_atomic : forall h k bc ch s c mc lc, wbhw_wf h -> Proofs.WbCsrBridge.wf bc ->
+  nth_error (wh_subs h) k = Some (HBridge bc ch) -> nth_error (WbDecoder.c_subs (wh_cfg h)) k = Some s ->
+  csr_dom c -> csr_widths c -> csr_map c = Ok mc -> csr_hw c = Ok ch -> all_resources mc = Ok lc ->
+  WbCsrBridge.c_caw bc = csr_aw c ->
+  forall pre q rvs post, length rvs = (Proofs.WbCsrBridge.nratio bc + 2)%nat ->
+  WbDecoder.cyc q = true -> WbDecoder.stb q = true -> WbDecoder.selected (wh_cfg h) (WbDecoder.adr q) = Some k ->
+  Forall ack_low (wb_after h (map winit (wh_subs h)) pre) ->
+  (forall sk, nth_error (wb_after h (map winit (wh_subs h)) pre) k = Some sk -> sub_idle sk) ->
+  let R := Proofs.WbCsrBridge.nratio bc in
+  let tr := pre ++ held q rvs ++ post in
+  let t0 := length pre in
+  let so := sub_req (wh_cfg h) k s q in
+  let A := WbDecoder.o_adr so * WbCsrBridge.ratio bc in
+  WbDecoder.we q = false ->
+  0 <= WbDecoder.o_adr so -> (WbDecoder.o_adr so + 1) * WbCsrBridge.ratio bc <= 2 ^ WbCsrBridge.c_caw bc ->
+  forall i L kk r, In i lc -> reg_at (csr_aw c) ch i L kk r -> Mux.r_rd r = true ->
+  A <= i_start i -> i_end i <= A + WbCsrBridge.ratio bc ->
+  (forall gz, i_start i <= A + gz < i_end i -> Z.testbit (WbDecoder.o_sel so) gz = true) ->
+  let gf := Z.to_nat (i_start i - A) in
+  exists o, nth_error (wb_run h (map winit (wh_subs h)) tr) (t0 + R + 1)%nat = Some o /\ wo_ack o = true /\
+    forall gn, i_start i <= A + Z.of_nat gn < i_end i ->
+      (Z.of_nat gn + 1) * WbCsrBridge.c_g bc <= WbDecoder.c_dw (wh_cfg h) ->
+      WbCsrBridge.lane bc (Z.of_nat gn) (wo_dat_r o) =
+      trunc (WbCsrBridge.c_g bc)
+        (Mux.word (csr_dw c) (Mux.r_width r) (Z.of_nat gn - Z.of_nat gf)
+                  (trunc (Mux.r_width r) (nth (Z.to_nat (i_res i)) (nth gf rvs []) 0))).
+Proof. exact bridge_read_atomic. Qed.
+Print Assumptions C01_wb_bridge_read_atomic.
+
 (* the bridges of a constructed hierarchy meet T2's premises on the configuration *)
 Theorem C01_wb_constructed_bridge : forall r m h j o sp n wn w g bc ch, wb_dom r -> wbroot_map r = Ok m ->
   sub_is r m h j o sp n wn w g (HBridge bc ch) ->
@@ -784,3 +820,10 @@ Proof.
     vm_compute. reflexivity. }
   vm_compute. reflexivity.
 Qed.
+
+(* ... and the right-hand side of C01_wb_bridge_read_atomic for that read (register 0, gf = 0, snapshot 0xABC of
+   cycle 6): lanes 0 and 1 of dat_r = 0x0ABC in the acknowledge cycle 9 are chunks 0 and 1 of 0xABC *)
+Example C01_wb_rung3_read_rhs :
+  map (fun g => WbCsrBridge.lane {| WbCsrBridge.c_r := 1; WbCsrBridge.c_caw := 2; WbCsrBridge.c_g := 8 |} g 2748) [0; 1] =
+  map (fun g => trunc 8 (Mux.word 8 12 (g - 0) (trunc 12 (nth 0 [2748; 0] 0)))) [0; 1].
+Proof. vm_compute. reflexivity. Qed.
